@@ -356,6 +356,13 @@ func (cc *grpcClientConn) Send(msg any) error {
 		cc.duplexCall.SetError(err)
 		return wrapIfContextError(err)
 	}
+	if cc.duplexCall.getError() != nil {
+		// Likewise when the call is over for another reason - Receive has
+		// reported the server's answer, or a failure: say that the stream has
+		// ended, as the write would, and not what is wrong with a message that
+		// is not going anywhere.
+		return errorf(CodeUnknown, "write envelope: %w", io.EOF)
+	}
 	if err := cc.marshaler.Marshal(msg); err != nil {
 		return err
 	}
